@@ -258,9 +258,15 @@ func (t *Template) expectString(context string) string {
 func (t *Template) parseTemplate(cacheAfterParsing bool) (next Node) {
 	t.Root = t.newList(t.peek().pos)
 	// {{ extends|import stringLiteral }}
+	// Whitespace-only text next to the leading extends/import clauses is dropped. If no
+	// such clause follows it, it is ordinary text and must be kept.
+	var leadingSpace []item
 	for t.peek().typ != itemEOF {
 		delim := t.next()
 		if delim.typ == itemText && strings.TrimSpace(delim.val) == "" {
+			if t.extends == nil && len(t.imports) == 0 {
+				leadingSpace = append(leadingSpace, delim)
+			}
 			continue //skips empty text nodes
 		}
 		if delim.typ == itemLeftDelim {
@@ -286,6 +292,7 @@ func (t *Template) parseTemplate(cacheAfterParsing bool) (next Node) {
 					t.imports = append(t.imports, tt)
 				}
 				t.expect(itemRightDelim, "extends|import", "closing delimiter")
+				leadingSpace = nil
 			} else {
 				t.backup2(delim)
 				break
@@ -293,6 +300,11 @@ func (t *Template) parseTemplate(cacheAfterParsing bool) (next Node) {
 		} else {
 			t.backup()
 			break
+		}
+	}
+	if t.extends == nil && len(t.imports) == 0 {
+		for _, space := range leadingSpace {
+			t.Root.append(t.newText(space.pos, space.val))
 		}
 	}
 
